@@ -8,7 +8,7 @@ from ..rules_e1 import run_e1
 from ..rules_e2 import run_e2
 from ..rules_contract import run_contracts
 from ..rules_dep import run_dep, run_err_both, run_eq_hash
-from ..rules_signpair import run_signpair, run_loneabs, run_truncsplit, run_remcarry, run_negmagnitude
+from ..rules_signpair import run_partsign, run_signpair, run_loneabs, run_truncsplit, run_remcarry, run_negmagnitude
 
 UNITS = ["years", "months", "weeks", "days", "hours", "minutes", "seconds", "milliseconds", "microseconds", "nanoseconds"]
 SELF = ("param", 1, "self")
@@ -22,6 +22,7 @@ def run(ctx, rep):
     run_dep(ctx, rep, "C12")
     run_err_both(ctx, rep, "C12")
     run_signpair(ctx, rep)
+    run_partsign(ctx, rep)
     run_loneabs(ctx, rep)
     prog = ctx.prog("Q")
     rep.notes.append("Does not decide equality with 128-bit reference arithmetic or float conversions.")
